@@ -561,25 +561,29 @@ func (d *Downstream) resume(parentConn *Conn) error {
 	d.connGeneration = connGeneration
 	d.mu.Unlock()
 
+	// the subscriptions are made once: a resume request that is repeated after RESUME_REQUEST_CONFLICT reuses them
+	// (subscribing the alias a second time on the same wire connection fails with "already subscribed")
+	dpsCh, err := wireConn.SubscribeDownstreamChunk(d.ctx, d.idAlias, d.Config.QoS)
+	if err != nil {
+		err = fmt.Errorf("failed to SubscribeDownstreamChunk: %w", err)
+		d.closeWithError(d.ctx, err)
+		return err
+	}
+	ackCompCh, err := wireConn.SubscribeDownstreamChunkAckComplete(d.ctx, d.idAlias)
+	if err != nil {
+		err = fmt.Errorf("failed to SubscribeDownstreamChunkAckComplete: %w", err)
+		d.closeWithError(d.ctx, err)
+		return err
+	}
+	metaCh, err := parentConn.subscribeDownstreamMetadata(d.ctx, d.idAlias, d.Config.Filters)
+	if err != nil {
+		err = fmt.Errorf("failed to subscribeDownstreamMetadata: %w", err)
+		d.closeWithError(d.ctx, err)
+		return err
+	}
+
 	var resErr error
 	retry.Do(func() (end bool) {
-		dpsCh, err := wireConn.SubscribeDownstreamChunk(d.ctx, d.idAlias, d.Config.QoS)
-		if err != nil {
-			resErr = fmt.Errorf("failed to SubscribeDownstreamChunk: %w", err)
-			return true
-		}
-		ackCompCh, err := wireConn.SubscribeDownstreamChunkAckComplete(d.ctx, d.idAlias)
-		if err != nil {
-			resErr = fmt.Errorf("failed to SubscribeDownstreamChunkAckComplete: %w", err)
-			return true
-		}
-
-		metaCh, err := parentConn.subscribeDownstreamMetadata(d.ctx, d.idAlias, d.Config.Filters)
-		if err != nil {
-			resErr = fmt.Errorf("failed to subscribeDownstreamMetadata: %w", err)
-			return true
-		}
-
 		resp, err := wireConn.SendDownstreamResumeRequest(d.ctx, &message.DownstreamResumeRequest{
 			StreamID:             d.ID,
 			DesiredStreamIDAlias: d.idAlias,
